@@ -841,7 +841,11 @@ class Parser(object):
         :param line:   Line with one/more tags to process.
         :raise ParserError: If syntax error is detected.
         """
-        assert line.startswith("@")
+        # -- NOTE: Standalone usage (variant="tags") has no line counter yet.
+        line_number = self.line or 1
+        if not line.startswith("@"):
+            message = u"tag: %s (line: %s)" % (line.split()[0] if line.split() else line, line)
+            raise ParserError(message, line_number, self.filename)
         tags = []
         for word in line.split():
             if word.startswith("@"):
@@ -851,7 +855,7 @@ class Parser(object):
             else:
                 # -- BAD-TAG: Abort here.
                 message = u"tag: %s (line: %s)" % (word, line)
-                raise ParserError(message, self.line, self.filename)
+                raise ParserError(message, line_number, self.filename)
         return tags
 
     def parse_step(self, line):
